@@ -60,6 +60,9 @@ type poolResult struct {
 	Stderr  string
 }
 
+// PoolLostWorkers counts workers that died once but whose task succeeded on a fresh worker.
+var PoolLostWorkers int64
+
 const poolWatchdog = 120 * time.Second
 
 // runPool executes tasks on n worker processes; handle is called (concurrently)
@@ -109,6 +112,19 @@ func runPoolSkip(kind string, n int, tasks [][]byte, skip func(i int) bool, hand
 					st := p.stderrTail()
 					p.kill()
 					p = nil
+					// a worker may be lost for reasons unrelated to the task (resource pressure): a crash is
+					// believed only if it reproduces on a fresh worker
+					if p2, err := startProc(kind); err == nil {
+						res2, ok2 := p2.do(tasks[i])
+						if ok2 {
+							p = p2
+							atomic.AddInt64(&PoolLostWorkers, 1)
+							handle(i, poolResult{Res: res2})
+							continue
+						}
+						st = st + "\n[second attempt] " + p2.stderrTail()
+						p2.kill()
+					}
 					handle(i, poolResult{Crashed: true, Stderr: st})
 					continue
 				}
@@ -205,7 +221,11 @@ func (p *proc) do(task []byte) ([]byte, bool) {
 func (p *proc) stderrTail() string {
 	// give the dying process a moment to flush its panic trace
 	done := make(chan struct{})
-	go func() { _ = p.cmd.Wait(); close(done) }()
+	go func() {
+		err := p.cmd.Wait()
+		p.errBuf.Write([]byte(fmt.Sprintf("\n[supervisor] worker exit: %v\n", err)))
+		close(done)
+	}()
 	select {
 	case <-done:
 	case <-time.After(2 * time.Second):
